@@ -1,8 +1,11 @@
 package types
 
 import (
+	"math/big"
+
 	ethtypes "github.com/ethereum/go-ethereum/core/types"
 
+	clienttypes "github.com/teleport-network/teleport/x/xibc/core/client/types"
 	rt "github.com/teleport-network/teleport/zzverifrt"
 )
 
@@ -53,4 +56,27 @@ func VerifC14EthashEnvironment() {
 	failed := func(i int) bool { return i < len(tempDirFailed) && tempDirFailed[i] }
 	rt.Known("H10-ethash-verdict-depends-on-tempdir", failed(0) != failed(1))
 	rt.Assert("N2-verdict-independent-of-the-local-filesystem", (r1 == nil) == (r2 == nil))
+}
+
+// VerifC14DifficultyIndependentOfEarlierEvaluations (2-safety over one process's history): the expected difficulty of a header
+// is a function of the header's time and its parent - evaluating the same question again after another header was evaluated
+// in between gives the same answer. The solver's witness for "a slow header (>= 909 s after its parent) in between" is also
+// run natively: the encoding gives big integers value semantics, so a computation that writes through a shared *big.Int
+// (a package-level constant) can only be seen on the real code.
+func VerifC14DifficultyIndependentOfEarlierEvaluations() {
+	calc := makeDifficultyCalculator(big.NewInt(9700000))
+	// only the gap of the header evaluated in between is symbolic (integer division of several symbolic operands is beyond the
+	// solver budget, and the other values do not matter here)
+	pt, fastGap := uint64(1600000000), uint64(5)
+	slowGap := rt.U64("slow.gap")
+	rt.Assume(slowGap >= 1 && slowGap <= 5000)
+	parent := &Header{Height: clienttypes.Height{RevisionHeight: 1000}, Time: pt, Difficulty: big.NewInt(2000000).Bytes(), UncleHash: ethtypes.EmptyUncleHash.Bytes()}
+	d1 := calc(pt+fastGap, parent)
+	_ = calc(pt+slowGap, parent)
+	d3 := calc(pt+fastGap, parent)
+	rt.Reach("evaluated-three-times")
+	if slowGap >= 909 {
+		rt.Reach("a-slow-header-in-between")
+	}
+	rt.Assert("N6-difficulty-is-a-function-of-its-arguments", d1.Cmp(d3) == 0)
 }
